@@ -197,6 +197,35 @@ def judge(ctx, hs, traces, verdicts):
                           % (ev['op'], why, at, ev['a'], ev['r'], ev['obs']), rp)
 
 
+def rt_continuity(ctx, thorough):
+    """real-time side of "changing tempo or beats leaves the current beat/second pair continuous, beats advance at the
+    current tempo": routine programs with tempo / beats changes and quantised plays run under RtMain with timer
+    lateness (controlled scheduler) and are followed by TLC through the LogicalTime machine, which re-bases the map at
+    the caller's LOGICAL time; a clock that pivots on physical time shows up as a beats/seconds mismatch."""
+    import random
+    from props import _time as T
+    rnd = random.Random(ctx.seed + 1212)
+    n = 1200 if thorough else 160
+    progs = []
+    while len(progs) < n:
+        p = T.gen_program(rnd, len(progs), cls='A', feats=('tempo', 'tempo', 'spawn', 'quant'))
+        if any(i['op'] in ('T', 'TB') or (i['op'] == 'P' and i['a']) for b in p['routines'].values() for i in b):
+            progs.append(p)
+    tr = T.run_mode(ctx, [dict(q, strategy=dict(kind='random', seed=ctx.seed * 17 + q['id'])) for q in progs], 'rt')
+    for t in tr:
+        t['id'] += 7_000_000
+    v = T.validate(ctx, tr)
+    ctx.cov['evaluations'] += len(tr)
+    ctx.cov['rt_tempo_programs'] = len(tr)
+    for t in tr:
+        r = v[t['id']]
+        if r is not None:
+            at, why = r
+            ctx.violation('tempoclock:rt:%s' % why,
+                          'RT TempoClock under lateness: beats/seconds seen by routines deviate from the affine map re-based at logical time (%s) at event %d' % (why, at),
+                          dict(kind='time-program', mode='rt', program=t['prog'], rejected_at=at, why=why, events=t['ev'][:at + 1]))
+
+
 def run(ctx):
     thorough = not ctx.quick
     # 1. design model: the code's formulas satisfy the laws on the lattice
@@ -273,6 +302,7 @@ def run(ctx):
                               % (ev['op'], ev['a'], ev['obs'], want),
                               dict(kind='history', history=h, rejected_at=i + 1, why='replay'))
                 break
+    rt_continuity(ctx, thorough)
     ctx.cov['rule'] = ('4 start tempos x all sequences of %d state changes over {tempo x4, beats x3, meter x4, yield x4} with a '
                        'fixed battery of ~35 queries after every change and 8 play(quant)/play_next_bar children at the end; '
                        'every (quant, phase in (-quant,quant), reference) on the 1/8 lattice for %d meter origins; %d seeded '
@@ -287,6 +317,9 @@ def run(ctx):
 
 
 def replay(ctx, rp):
+    if rp['replay'].get('kind') == 'time-program':
+        from props.C05 import replay as r5
+        return r5(ctx, rp)
     h = rp['replay']['history']
     traces = run_histories(ctx, [h])
     verdicts = ctx.validate('TraceTempoMath', 'TraceTempoMath.cfg', traces)
